@@ -19,6 +19,10 @@ type peerBehaviour struct {
 	Kind   string
 	Status int
 	Body   int
+	// kind redirect: the first arrival is answered 302 + Location: <same URI>&hop=1, the hop with HopStatus. Status is
+	// what the sample must carry: HopStatus when the client follows redirects, 302 when it does not
+	Redirect  bool
+	HopStatus int
 	// what the client must see: response headers received? body complete?
 	GotResponse bool
 	BodyOK      bool
@@ -37,6 +41,9 @@ func genPeerBehaviour(f *simrt.Stream, faults bool) peerBehaviour {
 	if !faults {
 		if b.Status == 204 || b.Status == 304 {
 			b.Body = 0
+		}
+		if f.Draw(8) == 0 {
+			b.Kind, b.Redirect, b.HopStatus = "redirect", true, []int{200, 200, 404, 500, 201}[f.Draw(5)]
 		}
 		return b
 	}
@@ -85,6 +92,8 @@ func (b peerBehaviour) action() rawAction {
 	switch b.Kind {
 	case "status":
 		return rawAction{Bytes: resp(b.Status, "", body)}
+	case "redirect":
+		return rawAction{Bytes: resp(b.HopStatus, "", body)}
 	case "status-close":
 		return rawAction{Bytes: resp(b.Status, "Connection: close\r\n", body), Then: "close"}
 	case "close-no-response":
@@ -140,22 +149,23 @@ func (b peerBehaviour) action() rawAction {
 }
 
 type httpFaultSpec struct {
-	Entries    int
-	Passes     int
-	Inst       int
-	Gun        string // http | connect
-	AutoTag    bool
-	URIElems   int
-	NoTagOnly  bool
-	KeepAlive  bool
-	Tags       []string // ammo tag per entry ("" = none)
-	Paths      []string
-	Methods    []string
-	Behaviours []peerBehaviour
-	ConnFaults string // "", refuse-some, dial-timeout-some
-	Format     string
-	Lat        time.Duration
-	Chunk      int
+	Entries         int
+	Passes          int
+	Inst            int
+	Gun             string // http | connect
+	AutoTag         bool
+	URIElems        int
+	NoTagOnly       bool
+	KeepAlive       bool
+	Tags            []string // ammo tag per entry ("" = none)
+	Paths           []string
+	Methods         []string
+	Behaviours      []peerBehaviour
+	ConnFaults      string // "", refuse-some, dial-timeout-some
+	Format          string
+	Lat             time.Duration
+	Chunk           int
+	FollowRedirects bool // the client's redirect option
 	// diagnostics of the gun that read or rewrite the request and the response on the way
 	Trace, Dump bool
 	AnswLog     string // "", all, warning, error
@@ -196,6 +206,7 @@ func genHTTPFaultSpec(r *R, faults bool) httpFaultSpec {
 	sp.Format = []string{"uri", "json"}[w.Draw(2)]
 	sp.Lat = []time.Duration{100 * time.Microsecond, 2 * time.Millisecond, 30 * time.Millisecond}[w.Draw(3)]
 	sp.Chunk = []int{0, 0, 1, 13, 500}[w.Draw(5)]
+	sp.FollowRedirects = w.Bool()
 	if w.Draw(3) == 0 {
 		sp.Trace, sp.Dump = w.Bool(), w.Bool()
 		sp.AnswLog = []string{"", "all", "warning", "error"}[w.Draw(4)]
@@ -212,7 +223,14 @@ func genHTTPFaultSpec(r *R, faults bool) httpFaultSpec {
 			m = []string{"GET", "POST", "PUT", "DELETE"}[w.Draw(4)]
 		}
 		sp.Methods = append(sp.Methods, m)
-		sp.Behaviours = append(sp.Behaviours, genPeerBehaviour(f, faults))
+		bh := genPeerBehaviour(f, faults)
+		if bh.Redirect {
+			bh.Status = 302
+			if sp.FollowRedirects {
+				bh.Status = bh.HopStatus
+			}
+		}
+		sp.Behaviours = append(sp.Behaviours, bh)
 	}
 	if faults {
 		sp.ConnFaults = []string{"", "", "", "refuse-some", "dial-timeout-some", "partition-short", "partition-long"}[f.Draw(7)]
@@ -230,7 +248,7 @@ func (sp httpFaultSpec) describe() map[string]any {
 		bs = append(bs, fmt.Sprintf("%s/%d", b.Kind, b.Status))
 	}
 	return map[string]any{"entries": sp.Entries, "passes": sp.Passes, "instances": sp.Inst, "gun": sp.Gun, "auto_tag": sp.AutoTag, "uri_elements": sp.URIElems, "no_tag_only": sp.NoTagOnly,
-		"keep_alive": sp.KeepAlive, "tags": sp.Tags, "paths": sp.Paths, "methods": sp.Methods, "peer": bs, "conn_faults": sp.ConnFaults, "format": sp.Format, "latency": sp.Lat.String(), "chunk": sp.Chunk, "httptrace": fmt.Sprintf("trace=%v dump=%v", sp.Trace, sp.Dump), "answlog": sp.AnswLog}
+		"keep_alive": sp.KeepAlive, "tags": sp.Tags, "paths": sp.Paths, "methods": sp.Methods, "peer": bs, "conn_faults": sp.ConnFaults, "format": sp.Format, "latency": sp.Lat.String(), "chunk": sp.Chunk, "follow_redirects": sp.FollowRedirects, "httptrace": fmt.Sprintf("trace=%v dump=%v", sp.Trace, sp.Dump), "answlog": sp.AnswLog}
 }
 
 func runHTTPFaults(r *R, sp httpFaultSpec) *httpFaultOutcome {
@@ -267,6 +285,7 @@ func runHTTPFaults(r *R, sp httpFaultSpec) *httpFaultOutcome {
 	gun := map[string]interface{}{"type": sp.Gun, "target": target, "disable-keep-alives": !sp.KeepAlive, "response-header-timeout": "2s",
 		"dial":     map[string]interface{}{"timeout": "1s"},
 		"auto-tag": map[string]interface{}{"enabled": sp.AutoTag, "uri-elements": sp.URIElems, "no-tag-only": sp.NoTagOnly}}
+	gun["redirect"] = sp.FollowRedirects
 	if sp.Trace || sp.Dump {
 		gun["httptrace"] = map[string]interface{}{"trace": sp.Trace, "dump": sp.Dump}
 	}
@@ -325,6 +344,9 @@ func runHTTPFaults(r *R, sp httpFaultSpec) *httpFaultOutcome {
 				i := markerOf(s.URI)
 				if i < 0 || i >= sp.Entries {
 					return rawAction{Bytes: []byte("HTTP/1.1 400 Bad Request\r\nContent-Length: 0\r\n\r\n")}
+				}
+				if bh := sp.Behaviours[i]; bh.Redirect && !strings.Contains(s.URI, "hop=1") {
+					return rawAction{Kind: "respond", Bytes: []byte("HTTP/1.1 302 Found\r\nLocation: " + s.URI + "&hop=1\r\nContent-Length: 0\r\n\r\n")}
 				}
 				return sp.Behaviours[i].action()
 			})
